@@ -40,7 +40,8 @@ class KnownFinding:
         return True
 
     def region(self, env):
-        scope = {"X": ex, "c": env.c, "env": env, "tags": env.tags}
+        scope = {"X": ex, "c": env.c, "env": env, "tags": env.tags, "tmin": core.tmin, "tmax": core.tmax,
+                 "bits": core.bits, "signed": core.signed}
         scope.update(env.a)
         return eval(self.region_src, scope)
 
